@@ -115,6 +115,9 @@ def main(chk):
             open(os.path.join(T, n), 'w').write('content of %s\n' % n)
         os.symlink('a', os.path.join(T, 'zl'))
         preopens = [T] + r.sample([os.path.join(T, 'sub'), os.path.join(T, 'other'), os.path.join(T, 'sub', 'deep') + '/'], r.randint(0, 2))
+        with_dev = r.random() < 0.4 and os.path.exists('/dev/full')
+        if with_dev:
+            preopens.append('/dev')
         abi = r.choice(['p1', 'un'])
         g = wasih.Guest(plan, ARENA, abi=abi)
         # some pre-opens are registered with a native directory descriptor opened by the embedder (wasiFileDescriptorAdd(fd >= 0, path))
@@ -180,7 +183,7 @@ def main(chk):
         # free for reuse by later opens, so a stale use would land in an unrelated file) and the additional pre-opens
         victims = []
         if r.random() < 0.6:
-            victims = r.sample([0, 1] + ([2] if r.random() < 0.2 else []) + list(range(first_fd + 1, first_fd + npre)), 1)
+            victims = r.sample([0, 1] + ([2] if r.random() < 0.2 else []) + list(range(first_fd + 1, first_fd + npre - (1 if with_dev else 0))), 1)
             if r.random() < 0.3:
                 victims.append(r.choice([v for v in (0, 1) if v not in victims] or [0]))
             victims = list(dict.fromkeys(victims))
@@ -293,6 +296,32 @@ def main(chk):
             checks.append(('errno', idx, 0, 'fd_close(live)'))
             live.discard(dfd)
             closed.append((dfd, True))
+        # ---- a host call that fails with a distinctive error (no space left: a write to /dev/full) right before the sweeps: what a dead
+        # number answers must not depend on what an earlier, unrelated call left behind (errno)
+        if with_dev:
+            devfd = first_fd + npre - 1
+            g.poke(0x6200, b'full')
+            g.poke(0x6100, b'\xff\xff\xff\xff')
+            idx = g.call('path_open', [devfd, 0, 0x6200, 4, 0, (1 << 6), 0, 0, 0x6100])
+            di = g.dump(0x6100, 4)
+            checks.append(('open', di, (nextfd, frozenset(live)), idx))
+            ffd = nextfd
+            nextfd += 1
+            idx = g.call('fd_write', [ffd, 0x5100, 1, 0x5200])
+            checks.append(('errno', idx, 51, 'fd_write(/dev/full)'))
+            idx = g.call('fd_close', [ffd])
+            checks.append(('errno', idx, 0, 'fd_close(live)'))
+            closed.append((ffd, False))
+            idx = g.call('fd_write', [ffd, 0x5100, 1, 0x5200]) if r.random() < 0.5 else g.call('fd_close', [ffd])
+            checks.append(('dead', idx, EBADF, ('fd_close-or-write', abi, 'closed-file-after-enospc', ffd)))
+            if r.random() < 0.5:
+                # and once more with the error fresh
+                g.call('path_open', [devfd, 0, 0x6200, 4, 0, (1 << 6), 0, 0, 0x6100])
+                ffd2 = nextfd
+                nextfd += 1
+                g.call('fd_write', [ffd2, 0x5100, 1, 0x5200])
+                live.add(ffd2)
+                opened.append((ffd2, False))
         # ---- dead-number sweeps
         never = [nextfd, nextfd + 1, 1 << 31, 0xffffffff, r.randint(nextfd + 2, 1 << 30), 0x7fffffff]
         deads = [(fd, 'closed-dir' if isdir else 'closed-file') for fd, isdir in closed] + [(fd, 'never-issued') for fd in r.sample(never, 3)]
